@@ -296,7 +296,17 @@ def values(dialect):
     base = st.one_of(sc, sc, quantities(dialect, sc))
     longseq = st.lists(strings(dialect), min_size=5, max_size=14).map(
         lambda l: {"seq": l})
-    return st.one_of(st.recursive(base, extend, max_leaves=10), longseq)
+    # long sequences and sets of numbers with units that contain blanks (no quote
+    # character anywhere): when such a statement is wrapped, the only places where the
+    # line must not break are inside the units expressions
+    spaced = st.sampled_from(["W / m**2 / sr", "m / s", "km / s / s", "deg / pixel",
+                              "m /\ts", "kg * m**2"])
+    qnum = st.tuples(st.one_of(st.integers(-999, 10 ** 6),
+                               st.floats(-1e6, 1e6, allow_nan=False)), spaced).map(
+        lambda t: {"q": [t[0], t[1]]})
+    longq = st.lists(qnum, min_size=4, max_size=12).map(lambda l: {"seq": l})
+    return st.one_of(st.recursive(base, extend, max_leaves=10), longseq,
+                     st.integers(0, 2).flatmap(lambda k: longq if k == 0 else longseq))
 
 
 @functools.lru_cache(maxsize=None)
